@@ -827,6 +827,51 @@ func (env *SpecEnv) evalCall(n ECall) specVal {
 			return specVal{env.e.sym.Fresh("ghost!"+id, SBool), boolT}
 		}
 		sfail("unknown ghost %s", id)
+	case "sent":
+		// sent(): a select of this path completed through one of its send cases
+		if env.callSite {
+			// the callee's selects are not the caller's: nothing is known
+			return specVal{env.e.sym.Fresh("sent!callee", SBool), boolT}
+		}
+		var alts []Term
+		for k, v := range env.st.ghost {
+			if strings.HasPrefix(k, "sent!") {
+				alts = append(alts, v)
+			}
+		}
+		sort.Slice(alts, func(i, j int) bool { return alts[i].S < alts[j].S })
+		return specVal{Or(alts...), boolT}
+	case "emptyset":
+		// emptyset(x): the empty ghost set of values of x's type (x is evaluated for its type only)
+		x := env.eval(n.Args[0])
+		ks := env.e.keySort(x.t)
+		return specVal{Term{"((as const (Array " + ks + " Bool)) false)", "(Array " + ks + " Bool)"}, nil}
+	case "add", "has":
+		s, ok := env.eval(n.Args[0]).v.(Term)
+		if !ok || !strings.HasPrefix(s.Sort, "(Array ") {
+			sfail("%s: first argument is not a ghost set", n.Fn)
+		}
+		k := env.eval(n.Args[1])
+		kt := env.e.keyTerm(k.v, k.t)
+		if n.Fn == "add" {
+			return specVal{Store(s, kt, TTrue), nil}
+		}
+		return specVal{Select(s, kt), boolT}
+	case "subsetdom":
+		// subsetdom(s, m): every element of the ghost set s is a key of the map m
+		s, ok := env.eval(n.Args[0]).v.(Term)
+		if !ok || !strings.HasPrefix(s.Sort, "(Array ") {
+			sfail("subsetdom: first argument is not a ghost set")
+		}
+		m := env.eval(n.Args[1])
+		mt, isMap := m.t.Underlying().(*types.Map)
+		if !isMap {
+			sfail("subsetdom: second argument is not a map")
+		}
+		dom, _, _ := env.e.mapHeaps(mt)
+		ks := env.e.keySort(mt.Key())
+		d := Select(env.curHeapGet(dom.name, dom.sort), m.v.(Term))
+		return specVal{Term{fmt.Sprintf("(forall ((qk %s)) (=> (select %s qk) (select %s qk)))", ks, s.S, d.S), SBool}, boolT}
 	case "iserr":
 		// iserr(err, Sentinel)
 		x := env.eval(n.Args[0]).v.(VIface)
@@ -1085,20 +1130,25 @@ func orderDefs(defs []string) []string {
 func (env *SpecEnv) evalTypeInv(n ECall) specVal {
 	x := env.eval(n.Args[0])
 	p, ok := x.v.(VPtr)
-	if !ok {
-		sfail("inv() needs a pointer")
+	var pt types.Type
+	if ok {
+		pt = pointeeType(p)
+	} else {
+		// a struct held in a field (x.f): the invariant of the embedded value, at its address
+		if _, isStruct := x.v.(VStruct); !isStruct {
+			sfail("inv() needs a pointer or an addressable struct")
+		}
+		p, pt = env.addrOf(n.Args[0])
+		x = specVal{p, types.NewPointer(pt)}
 	}
-	pt := pointeeType(p)
-	name := ""
+	name, pkgp := "", ""
 	if nt, ok := pt.(*types.Named); ok {
 		name = nt.Obj().Name()
-	}
-	var ti *TypeInv
-	for _, t := range env.e.cs.TypeInvs {
-		if t.Type == name {
-			ti = t
+		if nt.Obj().Pkg() != nil {
+			pkgp = nt.Obj().Pkg().Path()
 		}
 	}
+	ti := env.e.cs.TypeInvs[pkgp+"."+name]
 	if ti == nil {
 		sfail("no type invariant for %s", name)
 	}
